@@ -214,7 +214,8 @@ def run(ctx, res):
         for d in dirs:
             shutil.rmtree(d, ignore_errors=True)
         mres = ctx.model.run_many([['sepmatrix', bool(c['cfg'].get('nquads')), mapcase.w_doc(c)] for c in cases])
-        for c, ir, mr in zip(cases, ires, mres):
+        mres_nq = ctx.model.run_many([['sepmatrix', True, mapcase.w_doc(c)] for c in cases])
+        for c, ir, mr, mrq in zip(cases, ires, mres, mres_nq):
             res.evaluations += 1
             if not ir.get('ok') or 'rules' not in ir['result']:
                 res.count('partition:%s:impl-raises' % mode[0])
@@ -229,6 +230,7 @@ def run(ctx, res):
             isig = impl_sigs(ir['result']['rules'])
             msig = model_sigs(mr[1], source_paths(c))
             sep = {(a, b): (s == 'true') for a, b, s in mr[2]}
+            sep_nq = {(a, b): (s == 'true') for a, b, s in mrq[2]} if not common.is_err(mrq) else sep
             by_sig = {}
             for rid, sg in msig.items():
                 by_sig.setdefault(sg, rid)
@@ -247,11 +249,12 @@ def run(ctx, res):
                 if la != lb and not sep[(by_sig[sa], by_sig[sb])]:
                     nq_sep = None
                     res.count('partition:%s:unsafe-separation' % mode[0])
-                    suspicious.append((c, mode, sa, sb))
+                    # separable only through the graph position, which N-TRIPLES lines do not show: the recorded finding
+                    suspicious.append((c, mode, sa, sb, sep_nq[(by_sig[sa], by_sig[sb])]))
                     break
     # every unsafe separation: search for a concrete failing input through the CLI
     handled = 0
-    for c, mode, sa, sb in suspicious[:ctx.scale(12, 60)]:
+    for c, mode, sa, sb, graph_only in suspicious[:ctx.scale(12, 60)]:
         nt = not c['cfg'].get('nquads')
         tries = [dict(c, cfg=dict(c['cfg'], mode=mode)), dict(collision_tables(c, sa, sb), cfg=dict(c['cfg'], mode=mode, na=['zzz-not-used']))]
         found = False
@@ -262,7 +265,7 @@ def run(ctx, res):
                 found = True
                 break
         if not found:
-            key = 'ntriples-graph-separation' if (nt and 'ntriples-graph-separation' in known and graph_only_dups(c)) else None
+            key = 'ntriples-graph-separation' if (nt and 'ntriples-graph-separation' in known and graph_only) else None
             if key is None:
                 res.disagreements.append({'what': 'the implementation (%s) separates two rules the proven criterion does not allow to separate: %s | %s'
                                                   % (mode, sa, sb), 'replay': c})
